@@ -278,7 +278,7 @@ def c08_replay(chk, body):
 
 # ------------------------------------------------------------------------------------------ C18
 
-C18_PINMODES = ["none", "two", "three", "all", "both", "spread", "sel", "nssel"]
+C18_PINMODES = ["none", "two", "three", "all", "both", "spread", "sel", "nssel", "peers"]
 C18_LOAD = {"quick": {"cfg": "ConfigLoadMC_q.cfg", "reps": 20}, "thorough": {"cfg": "ConfigLoadMC_t.cfg", "reps": 60}}
 # reconciler walks: (cfg, rec, pin, quick sample of transitions, idle reconciliations per step)
 C18_RECON = {"quick": [("pool3", "pool", 3, 400, 12, "record"), ("pool2", "pool", 2, 250, 12, "record"),
@@ -286,13 +286,16 @@ C18_RECON = {"quick": [("pool3", "pool", 3, 400, 12, "record"), ("pool2", "pool"
                        ("config3", "config", 3, 350, 12, "record"), ("config0", "config", 0, 500, 6, "record"),
                        ("configadv", "config", 0, 300, 12, "record"),
                        # the PoolReconciler feeding the REAL consumer (allocator.SetPools + ReprocessAll, as controller.SetPools)
-                       ("pool0", "pool", 0, 150, 4, "allocator"), ("pool3", "pool", 0, 300, 4, "allocator")],
+                       ("pool0", "pool", 0, 150, 4, "allocator"), ("pool3", "pool", 0, 300, 4, "allocator"),
+                       # the ConfigReconciler feeding the REAL speaker controller with the native session manager
+                       ("speaker", "speaker", 0, 500, 4, "speaker-native")],
              "thorough": [("pool3", "pool", 3, None, 25, "record"), ("pool2", "pool", 2, None, 25, "record"),
                           ("pool0", "pool", 0, None, 10, "record"),
                           ("config3", "config", 3, None, 25, "record"), ("config0", "config", 0, None, 10, "record"),
                           ("configadv", "config", 0, None, 25, "record"),
                           ("pool0", "pool", 0, None, 6, "allocator"), ("pool3", "pool", 0, None, 6, "allocator"),
-                          ("pool3", "pool", 3, None, 6, "allocator")]}
+                          ("pool3", "pool", 3, None, 6, "allocator"),
+                          ("speaker", "speaker", 0, 12000, 4, "speaker-native")]}
 
 
 def c18_generate_load(chk, cfgfile):
@@ -312,7 +315,7 @@ def c18_generate_load(chk, cfgfile):
         return pm, res, snaps, perms
 
     out, perms = [], None
-    with concurrent.futures.ThreadPoolExecutor(max_workers=8) as ex:
+    with concurrent.futures.ThreadPoolExecutor(max_workers=9) as ex:
         for pm, res, snaps, pr in ex.map(one, C18_PINMODES):
             chk.add_model_run("%s:%s" % (cfgfile, pm), res)
             if res.violated:
@@ -373,21 +376,41 @@ def c18_judge(chk, obs_path, key):
     return vlib.run_judge_parallel(chk, "ConfigLoadTrace", "ConfigLoadTrace.cfg", obs_path, walk_key=key)
 
 
+def c18_mode_of(name, o):
+    """judge names look like C18.OrderFree@frr/webhook: (predicate, mode record of the observation)"""
+    base, _, tag = name.partition("@")
+    mode, _, entry = tag.partition("/")
+    for m in o["modes"]:
+        if m["mode"] == mode and m["entry"] == entry:
+            return base, m
+    return base, o["modes"][0]
+
+
 def c18_load_signatures(name, o, objs):
-    if name == "C18.Repeatable":
-        return ["%s|pinned=%d" % (name, c18_pinned(objs))]
-    if name == "C18.OrderFree":
+    base, m = c18_mode_of(name, o)
+    # the validator mode / entry point is part of the signature unless it is the plain one (DontValidate through toConfig)
+    sfx = "" if (m["mode"], m["entry"]) == ("none", "toConfig") else "|mode=%s|entry=%s" % (m["mode"], m["entry"])
+    if base == "C18.Repeatable":
+        return ["%s|pinned=%d%s" % (base, c18_pinned(objs), sfx)]
+    if base == "C18.OrderFree":
         # with two or more pools pinned to one namespace a single load has no unique value (Go map order), so the
         # kind whose permutation happened to show it means nothing: the signature names the pinning instead
         pinned = c18_pinned(objs)
         if pinned >= 2:
-            return ["%s|pinned=%d" % (name, pinned)]
-        ks = ["%s|kind=%s|n=%d|pinned=%d" % (name, k["kind"], k["n"], pinned) for k in o["kinds"] if k["neq"]]
-        return ks or ["%s|kind=combined|pinned=%d" % (name, pinned)]
-    if name == "C18.AcceptanceOrderFree":
-        bad = [k["kind"] for k in o["kinds"] + [o["comb"]] if (k["nrej"] if o["first_ok"] else k["nacc"])]
-        return ["%s|bad=%s|kind=%s" % (name, json.loads(json.dumps(o["snap"]))["bad"], ",".join(bad))]
-    return [name]
+            return ["%s|pinned=%d%s" % (base, pinned, sfx)]
+        ks = ["%s|kind=%s|n=%d|pinned=%d%s" % (base, k["kind"], k["n"], pinned, sfx) for k in m["kinds"] if k["neq"]]
+        return ks or ["%s|kind=combined|pinned=%d%s" % (base, pinned, sfx)]
+    if base == "C18.AcceptanceOrderFree":
+        bad = [k["kind"] for k in m["kinds"] + [m["comb"]] if (k["nrej"] if m["first_ok"] else k["nacc"])]
+        sn = o["snap"]
+        what = sn["bad"] if sn.get("kind", "grid") == "grid" else "peers-slice"
+        return ["%s|bad=%s|kind=%s%s" % (base, what, ",".join(bad), sfx)]
+    return [base + sfx]
+
+
+def c18_mode_summary(o):
+    return [{"mode": m["mode"], "entry": m["entry"], "first_ok": m["first_ok"], "err": m["err"], "reps": m["reps"],
+             "kinds": [k for k in m["kinds"] if k["runs"]], "comb": m["comb"]} for m in o["modes"]]
 
 
 def c18_run_load(chk):
@@ -398,19 +421,27 @@ def c18_run_load(chk):
     obs = [json.loads(l) for l in open(obs_path)]
     if len(obs) != len(scens):
         raise vlib.Inconclusive("harness logged %d observations for %d snapshots" % (len(obs), len(scens)))
-    loads = sum(1 + o["reps"]["runs"] + o["comb"]["runs"] + sum(k["runs"] for k in o["kinds"]) for o in obs)
-    nontrivial = sum(1 for o in obs if any(k["n"] >= 2 for k in o["kinds"]))
+    loads = sum(1 + m["reps"]["runs"] + m["comb"]["runs"] + sum(k["runs"] for k in m["kinds"]) for o in obs for m in o["modes"])
+    nontrivial = sum(1 for o in obs if any(k["n"] >= 2 for k in o["modes"][0]["kinds"]))
     chk.cov["loads"] = chk.cov.get("loads", 0) + loads
     chk.cov["load_snapshots"] = len(obs)
-    chk.cov["load_snapshots_accepted"] = sum(1 for o in obs if o["first_ok"])
+    chk.cov["load_snapshots_accepted"] = sum(1 for o in obs if o["modes"][0]["first_ok"])
+    chk.cov["load_accepted_by_mode"] = {}
+    for o in obs:
+        for m in o["modes"]:
+            k = "%s/%s" % (m["mode"], m["entry"])
+            d = chk.cov["load_accepted_by_mode"].setdefault(k, {"accepted": 0, "rejected": 0})
+            d["accepted" if m["first_ok"] else "rejected"] += 1
     chk.cov["load_snapshots_pinned_2plus"] = sum(1 for s in scens if c18_pinned(s["objs"]) >= 2)
-    chk.cov["load_snapshots_3plus_of_a_kind"] = sum(1 for o in obs if any(k["n"] >= 3 for k in o["kinds"]))
+    chk.cov["load_snapshots_3plus_of_a_kind"] = sum(1 for o in obs if any(k["n"] >= 3 for k in o["modes"][0]["kinds"]))
+    chk.cov["load_snapshots_multivalued_fields"] = sum(1 for s in scens if s["snap"].get("adv") == "multi")
+    chk.cov["load_snapshots_peers_slice"] = sum(1 for s in scens if s["snap"].get("kind") == "peers")
     chk.cov["traces_validated_against_impl"] += len(obs)
     chk.cov["evaluations"] += nlines
     chk.cov["distinct_nontrivial"] += nontrivial
     for o in obs:
-        if o["first_ok"] and any(k["n"] >= 3 for k in o["kinds"]) and len(chk.cov["samples"]) < 2:
-            chk.cov["samples"].append({"kind": "load", "snapshot": o["snap"], "observation": {k: o[k] for k in ("first_ok", "reps", "kinds", "comb")}})
+        if o["modes"][0]["first_ok"] and any(k["n"] >= 3 for k in o["modes"][0]["kinds"]) and len(chk.cov["samples"]) < 2:
+            chk.cov["samples"].append({"kind": "load", "snapshot": o["snap"], "observation": c18_mode_summary(o)[:3]})
     vlib.log("  load: %d snapshots, %d toConfig loads, %d failing lines" % (len(obs), loads, len(fails)))
     if not fails:
         return
@@ -446,7 +477,8 @@ def c18_run_load(chk):
                 chk.notes.append("unreproduced: %s %s" % (o["id"], sig))
                 continue
             s = byid[o["id"]]
-            chk.fail(sig, name, detail={"observation": {k: o2[k] for k in ("first_ok", "err", "reps", "kinds", "comb")},
+            chk.fail(sig, name.partition("@")[0], detail={"observation": [x for x in c18_mode_summary(o2)
+                                                                          if "@%s/%s" % (x["mode"], x["entry"]) in name],
                                         "failing_snapshots_with_this_signature": len(lst)},
                      scenario={"family": "config", "prop": "C18", "kind": "load", "perms": perms, "reps": max(par["reps"], 60),
                                "snap": s["snap"], "objs": s["objs"]})
@@ -454,6 +486,14 @@ def c18_run_load(chk):
 
 def c18_recon_harness(chk, scen_path, rec, pin, idle, tag, consumer="record"):
     obs = os.path.join(chk.work, "c18_obs_%s.ndjson" % tag)
+    if rec == "speaker":
+        # the real speaker controller (package main of /repo/speaker) as the ConfigReconciler's handler
+        ov = vlib.overlay_for(_own_mapping("speaker", "speaker", ["cfg18_test.go"]), os.path.join(chk.work, "ov_speaker"))
+        rc, out = vlib.go_test("speaker", "^TestVerifCfg18Speaker$", ov,
+                               {"VERIF_SCENARIOS": scen_path, "VERIF_OBS": obs, "VERIF_IDLE": idle, "VERIF_SEED": chk.seed})
+        if rc != 0:
+            raise vlib.Inconclusive("speaker harness (ConfigReconciler + real speaker) failed (rc=%s):\n%s" % (rc, out[-3000:]))
+        return obs
     rc, out = c18_go(chk, "^TestVerifConfigRecon$", {"VERIF_SCENARIOS": scen_path, "VERIF_OBS": obs, "VERIF_REC": rec,
                                                     "VERIF_PIN": pin, "VERIF_IDLE": idle, "VERIF_CONSUMER": consumer})
     if rc != 0:
@@ -602,11 +642,11 @@ def c18_replay(chk, body):
         chk.cov["evaluations"] = nlines
         chk.cov["distinct_nontrivial"] = 1
         chk.cov["traces_validated_against_impl"] = 1
-        chk.cov["samples"].append({"snapshot": sc["snap"], "observation": obs[0]})
+        chk.cov["samples"].append({"snapshot": sc["snap"], "observation": c18_mode_summary(obs[0])[:3]})
         for f in fails:
             for name in f["fails"]:
                 for sig in c18_load_signatures(name, obs[f["line"] - 1], sc["objs"]):
-                    chk.fail(sig, name, detail={"observation": obs[f["line"] - 1]}, scenario=sc)
+                    chk.fail(sig, name.partition("@")[0], detail={"observation": c18_mode_summary(obs[f["line"] - 1])}, scenario=sc)
         return
     scen = os.path.join(chk.work, "c18_scen_replay.ndjson")
     vlib.write_scenarios(scen, [sc["steps"]], sc["init"], prefix="replay-")
